@@ -293,6 +293,9 @@ def gen_chain(g, S, length, family, t):
             types.append("GM"[int(g.integers(0, 2))] if family != "mp-heavy" else "M")
     if family == "mp-heavy" and types[0] == "G":
         types[0] = "M"
+    if family == "zero-prob" and length >= 3:
+        # exact zero probabilities (also for the LAST outcome of the first measurement) followed by another measurement
+        types[-1], types[-2], types[-3] = "S", "M", "M"
     rp = None
     if family == "repeat-proj":
         # the same projective measurement (random, not axis aligned) applied twice, or followed by its coarse-graining /
